@@ -78,6 +78,10 @@ class CBlImm11Relocation(CRel):
         assert sym_value % 2 == 0
         assert reloc_value % 2 == 0
         bv = BitView(data, 0, 4)
+        rd = ((data[0] >> 7) | (data[1] << 1)) & 0x1F
+        if rd != 1:
+            # c.jal always links through ra (x1).
+            return None
         bv[0:2] = 0b01
         bv[13:16] = 0b001  # c.jal opcode
 
